@@ -128,6 +128,13 @@ func (r *run) binopVals(op token.Token, xv, yv Value, xt, yt types.Type, cur *no
 			z := c.Eq(b, c.IntC(0))
 			q := r.truncDiv(a, b)
 			if op == token.QUO {
+				// the one quotient of two values of a signed type that leaves the type: min / -1 (the machine
+				// result wraps to min; the mathematical quotient used here does not)
+				if cur != nil && isInteger(xt) && isSigned(xt) {
+					if f := r.typeRangeFact(xt, q); !f.IsTrue() {
+						r.overflowCheck(cur, c.Implies(c.Not(z), f), op)
+					}
+				}
 				return Scalar{q}, z
 			}
 			return Scalar{c.Op("-", nil, a, c.Op("*", nil, b, q))}, z
@@ -163,6 +170,16 @@ func (r *run) binopVals(op token.Token, xv, yv Value, xt, yt types.Type, cur *no
 						return Scalar{c.Op("mod", nil, a, c.IntC(k+1))}, nil
 					}
 				}
+			}
+			if isInteger(xt) && (op == token.AND || op == token.OR || op == token.XOR || op == token.AND_NOT) {
+				// a bitwise operation on mathematical integers is not expressible: its result is abstracted by
+				// an uninterpreted function of the operands; all that is known is that it is a value of the type
+				// (bitwise operations never leave the range of their operand type)
+				res := r.uf(fmt.Sprintf("bitop$%s$%s", opName(op), typeKey(xt)), smt.Int, a, b)
+				if f := r.typeRangeFact(xt, res); !f.IsTrue() && !res.HasBound {
+					r.assume(c.True(), f)
+				}
+				return Scalar{res}, nil
 			}
 			r.unsupported("bit operation %s in int mode", op)
 		}
@@ -419,7 +436,7 @@ func (r *run) convert(cur *node, v Value, from, to types.Type) Value {
 			if eb, ok := x.Base.T.Underlying().(*types.Basic); ok && eb.Kind() == types.Uint8 && s == StrSort {
 				// string(b) for a byte slice: same length; in int mode also the same bytes
 				r.assume(c.True(), c.Eq(r.uf("strlen$", r.idx(), res), x.Len))
-				if r.mode == "int" {
+				if r.mode == "int" || r.appendFacts {
 					es := r.scalarSort(x.Base.T)
 					j := c.BoundVar("j", r.idx())
 					at := r.uf("strat$", es, res, j)
@@ -446,7 +463,7 @@ func (r *run) convert(cur *node, v Value, from, to types.Type) Value {
 			if eb, ok := st.Elem().Underlying().(*types.Basic); ok && eb.Kind() == types.Uint8 {
 				// []byte(s): as long as s; in int mode also the bytes of s
 				r.assume(c.True(), c.Eq(ln, r.uf("strlen$", r.idx(), sv.T)))
-				if r.mode == "int" {
+				if r.mode == "int" || r.appendFacts {
 					j := c.BoundVar("j", r.idx())
 					sel := c.Select(content, j)
 					r.assume(c.True(), c.Forall([]*smt.Term{j}, c.Implies(c.And(r.sle(r.idxConst(0), j), r.slt(j, ln)),
@@ -885,8 +902,8 @@ func (r *run) appendMany(fr *frame, cur *node, x *ssa.Call, dst, src SliceV) Val
 		oldRow := c.Select(h, dst.Base.Idxs[0])
 		srcRow := c.Select(sh, src.Base.Idxs[0])
 		row := c.Fresh("append.row", hs.Elem)
-		if r.mode == "int" {
-			j := c.BoundVar("j", smt.Int)
+		if r.mode == "int" || r.appendFacts {
+			j := c.BoundVar("j", r.idx())
 			lo := r.iadd(dst.Off, dst.Len)
 			hi := r.iadd(lo, src.Len)
 			pat := []*smt.Term{c.Select(row, j)}
@@ -1269,6 +1286,18 @@ func (r *run) applyContractSig(fr *frame, cur *node, callee string, fc *contract
 		}
 	}
 	after := fr.syntheticAfter(cur)
+	// the callee may allocate: the allocation counter after the call is some value not below the one before
+	// (objects the callee hands back as fresh lie in between and differ from everything allocated later)
+	advances := !(fc.Pure && len(fc.Ensures) == 0)
+	if advances {
+		na := c.Fresh("$alloc.call", smt.Int)
+		r.assume(c.True(), c.Op(">=", nil, na, cur.getPV("$alloc", smt.Int)))
+		if r.allocAdvances == nil {
+			r.allocAdvances = map[*smt.Term]bool{}
+		}
+		r.allocAdvances[na] = true
+		after.setPV("$alloc", na)
+	}
 	// havoc modifies
 	en2 := &env{r: r, pkg: pkg, vars: en.vars, cur: after, old: cur, fr: fr}
 	for _, m := range fc.Modifies {
@@ -1359,6 +1388,27 @@ func (r *run) applyContractSig(fr *frame, cur *node, callee string, fc *contract
 			r.curTag = normTag(in.tag)
 			r.assume(c.And(after.alive, in.cond), ien.evalBool(cl.Expr))
 			r.curTag = ""
+		}
+	}
+	// a reference handed back by a call is the reference of an object that exists when the call returns:
+	// it lies below the allocation counter of the state after the call (so later allocations differ from it)
+	var heapRefs func(v Value) []*smt.Term
+	heapRefs = func(v Value) []*smt.Term {
+		switch x := v.(type) {
+		case PtrV, SliceV:
+			return refsOf(x)
+		case TupleV:
+			var out []*smt.Term
+			for _, e := range x.Elems {
+				out = append(out, heapRefs(e)...)
+			}
+			return out
+		}
+		return nil
+	}
+	for _, ref := range heapRefs(res) {
+		if advances && !ref.HasBound && !ref.IsConst() {
+			r.assume(c.True(), c.Op("<", nil, ref, after.getPV("$alloc", smt.Int)))
 		}
 	}
 	return res, after
@@ -1508,7 +1558,7 @@ func (fr *frame) runInvariantLoop(l *loop, spec *contract.LoopSpec, iter []int) 
 						seenRef[ref] = true
 						invRefs = append(invRefs, ref)
 					}
-				case freshInLoop(ref, dryAlloc):
+				case freshInLoop(ref, dryAlloc, r.allocAdvances, mark):
 				default:
 					okRefs = false
 				}
@@ -1745,19 +1795,22 @@ func (r *run) rangeIndexBound(fr *frame, hdr *node, l *loop, p *ssa.Phi) *smt.Te
 
 // freshInLoop: ref is the reference of an object allocated during the current iteration of the loop whose
 // second dry run started with allocation counter dryAlloc (ref == dryAlloc + k, k >= 0 a constant).
-func freshInLoop(ref, dryAlloc *smt.Term) bool {
+// A call made during the iteration moves the counter to a fresh variable not below the old one (adv, created
+// at or after mark): references counted from such a variable are fresh as well.
+func freshInLoop(ref, dryAlloc *smt.Term, adv map[*smt.Term]bool, mark int) bool {
 	if dryAlloc == nil {
 		return false
 	}
-	if ref == dryAlloc {
+	base := func(t *smt.Term) bool { return t == dryAlloc || (adv[t] && t.ID >= mark) }
+	if base(ref) {
 		return true
 	}
 	if ref.Op == "+" && len(ref.Args) == 2 {
 		a, b := ref.Args[0], ref.Args[1]
-		if b == dryAlloc {
+		if base(b) {
 			a, b = b, a
 		}
-		return a == dryAlloc && b.IsConst() && b.Val.Sign() >= 0
+		return base(a) && b.IsConst() && b.Val.Sign() >= 0
 	}
 	return false
 }
